@@ -29,6 +29,14 @@ RULE += (" Added after the white-box review: "
          "a 'history' part: 2..6 uses (round trip and detection of "
          "1..40 samples) and phase-offset changes on ONE PSK/QPSK "
          "object; one batch above 2^24 matrix elements ")
+RULE += (" Added after the second white-box review: the history part "
+         "uses one or TWO live modulators of all four classes (second one "
+         "often of the same class and order with another offset, built and "
+         "re-offset between uses of the first), the number of samples "
+         "varies from use to use (incl. 0, 1 as a 0-d value and 2-D "
+         "batches); a 'bignoisy' part sends single blocks of 1.5e3..6e5 "
+         "[2e6 thorough] off-point samples (inside, around the boundary, "
+         "box, far outside) to the nearest-point oracle. ")
 
 LEVEL_TEXT = ("Generated-input search (Hypothesis, seeded, sharded) plus "
               "complete enumeration of the supported modulator orders: exact "
@@ -274,28 +282,45 @@ def _rand_sample(sclass, rs):
 
 @st.composite
 def _history_st(draw, tier):
-    """2..6 operations on ONE PSK/QPSK object: phase-offset changes
-    interleaved with uses (same number of samples every time)"""
-    cfg = draw(_cfg_st(tier, classes=("QPSK", "PSK", "PSK")))
-    M = cfg["M"]
-    phis = st.one_of(fl(-2 * math.pi, 2 * math.pi),
-                     st.integers(-120, 120).map(lambda k: k / 10.0),
-                     st.sampled_from(SPECIAL_PHIS).map(
-                         lambda n: _special_phi(n, M)),
-                     st.just(0.0))
+    """3..8 operations on ONE or TWO live objects (the second one often of
+    the same class and order as the first): phase-offset changes (PSK/QPSK)
+    interleaved with uses; the number of samples varies from use to use"""
+    cfg = draw(_cfg_st(tier, classes=("QPSK", "PSK", "PSK", "PSK", "QAM",
+                                      "BPSK")))
+    cfgs = [cfg]
+    if draw(st.booleans()):
+        if draw(st.booleans()) and cfg["cls"] in ("PSK", "QPSK"):
+            other = draw(_cfg_st(tier, classes=("PSK",)))
+            other = dict(other, M=cfg["M"])
+            if other.get("phi") is not None and draw(st.booleans()):
+                other = dict(other, phi=draw(st.integers(-60, 60)) / 10.0)
+        else:
+            other = draw(_cfg_st(tier))
+        cfgs.append(other)
+    n = draw(st.integers(1, 40))
+    sizes = st.sampled_from([n, n, n, 1, max(1, n // 3), 2 * n + 1, 0])
+
+    def phis(M):
+        return st.one_of(fl(-2 * math.pi, 2 * math.pi),
+                         st.integers(-120, 120).map(lambda k: k / 10.0),
+                         st.sampled_from(SPECIAL_PHIS).map(
+                             lambda nm: _special_phi(nm, M)),
+                         st.just(0.0))
     steps = []
-    for _ in range(draw(st.integers(2, 6))):
+    for _ in range(draw(st.integers(2, 6 if len(cfgs) == 1 else 8))):
+        t = draw(st.integers(0, len(cfgs) - 1))
         k = draw(st.sampled_from(["use", "use", "set", "set", "set_back"]))
+        if cfgs[t]["cls"] not in ("PSK", "QPSK"):
+            k = "use"
         if k == "use":
-            steps.append(["use", draw(seeds)])
+            steps.append(["use", draw(seeds), draw(sizes), t])
         elif k == "set_back":
             # back to the offset the object was built with
-            steps.append(["set", None])
+            steps.append(["set", None, 0, t])
         else:
-            steps.append(["set", draw(phis)])
-    steps.append(["use", draw(seeds)])
-    return dict(part="history", cfg=cfg, steps=steps,
-                n=draw(st.integers(1, 40)))
+            steps.append(["set", draw(phis(cfgs[t]["M"])), 0, t])
+    steps.append(["use", draw(seeds), draw(sizes), 0])
+    return dict(part="history", cfg=cfg, cfgs=cfgs, steps=steps, n=n)
 
 
 def _constellation_st(tier):
@@ -362,7 +387,28 @@ def _enum_bigbatch(tier):
     return cases
 
 
+def _enum_bignoisy(tier):
+    """single calls with MANY off-point samples (M*n above 2**20 and up to
+    2**24): an implementation that picks another detector for long blocks is
+    judged on noisy, boundary and far-outside samples too."""
+    sizes = [("QAM", 16, 70000), ("QAM", 64, 20000), ("PSK", 8, 140000),
+             ("QAM", 4096, 1500), ("QPSK", 4, 300000), ("BPSK", 2, 600000)]
+    if tier == "thorough":
+        sizes += [("QAM", 256, 60000), ("QAM", 1024, 15000),
+                  ("PSK", 64, 200000), ("QAM", 16, 1000003),
+                  ("QAM", 4, 2000001), ("PSK", 1024, 9001)]
+    cases = []
+    for i, (cls, M, n) in enumerate(sizes):
+        cfg = dict(cls=cls, M=M, phi=(0.0 if i % 2 else 0.3)
+                   if cls == "PSK" else None, set_phi=None)
+        cases.append(dict(part="bignoisy", cfg=cfg, n=n, seed=2000 + i,
+                          two_d=bool(i % 2)))
+    return cases
+
+
 PARTS = [
+    Part("bignoisy", enumerate=_enum_bignoisy, quick_shards=3,
+         thorough_shards=6),
     Part("bigbatch", enumerate=_enum_bigbatch, quick_shards=2,
          thorough_shards=3),
     Part("table", enumerate=_enum_table, exhaustive=True, quick_shards=8),
@@ -625,19 +671,38 @@ def _part_roundtrip(case, ctx):
 
 
 def _part_history(case, ctx):
-    """after ANY sequence of uses and phase-offset changes on one object the
+    """after ANY sequence of uses and phase-offset changes on one object -
+    with a second live modulator built and used in between - the
     constellation, the round trip and nearest-point detection are those of
-    the current offset"""
-    cfg = dict(case["cfg"])
-    mod = _build(cfg)
-    M, n = cfg["M"], int(case["n"])
-    built_phi = _eff_phi(cfg)
+    the object's own current offset"""
+    cfgs = [dict(c) for c in case.get("cfgs", [case["cfg"]])]
+    mods = [_build(cfgs[0])] + [None] * (len(cfgs) - 1)
+    built = [_eff_phi(c) for c in cfgs]
     n_use = n_set = 0
-    ctx.label("hist:%s" % cfg["cls"],
-              "M<=16" if M <= 16 else ("M<=256" if M <= 256 else "M>256"))
-    for kind, arg in case["steps"]:
+    last_n = {}
+    cfg = cfgs[0]
+    ctx.label("hist:%s" % cfg["cls"], "hist:objects=%d" % len(cfgs),
+              "M<=16" if cfg["M"] <= 16 else
+              ("M<=256" if cfg["M"] <= 256 else "M>256"))
+    if len(cfgs) == 2:
+        if (cfgs[0]["cls"], cfgs[0]["M"]) == (cfgs[1]["cls"], cfgs[1]["M"]):
+            ctx.label("hist:two_same_class_and_order")
+        elif cfgs[0]["M"] == cfgs[1]["M"]:
+            ctx.label("hist:two_same_order")
+    touched_other = False
+    for step in case["steps"]:
+        kind, arg = step[0], step[1]
+        n = int(step[2]) if len(step) > 2 else int(case["n"])
+        t = int(step[3]) if len(step) > 3 else 0
+        cfg = cfgs[t]
+        if mods[t] is None:
+            mods[t] = _build(cfg)
+        mod = mods[t]
+        M = cfg["M"]
+        if t == 1:
+            touched_other = True
         if kind == "set":
-            phi = built_phi if arg is None else float(arg)
+            phi = built[t] if arg is None else float(arg)
             mod.setPhaseOffset(phi)
             cfg["set_phi"] = phi
             n_set += 1
@@ -645,26 +710,92 @@ def _part_history(case, ctx):
                 ctx.label("hist:set_after_use")
             continue
         n_use += 1
+        if t == 0 and touched_other:
+            ctx.label("hist:use_after_other_object")
+        if t in last_n and last_n[t] > n:
+            ctx.label("hist:fewer_samples_than_before")
+        elif t in last_n and last_n[t] < n:
+            ctx.label("hist:more_samples_than_before")
+        last_n[t] = n
         rs = np.random.RandomState(int(arg))
         c = _check_constellation(mod, cfg, ctx)
         idx = rs.randint(0, M, size=n)
         _check_roundtrip_array(mod, cfg, idx, ctx, "history")
         # noisy samples well inside the decision regions
-        dmin = 2.0 * math.sin(math.pi / M) if M > 1 else 2.0
+        dmin = _nn_dist(c, idx)
         z = c[idx] + 0.3 * dmin * rs.uniform(0.0, 1.0, n) * \
             np.exp(2j * math.pi * rs.uniform(0.0, 1.0, n))
-        got = np.asarray(mod.demodulate(z)).reshape(-1)
-        if got.shape != (n,) or not np.array_equal(got, idx):
-            bad = int(np.flatnonzero(got != idx)[0]) if got.shape == (n,) \
-                else -1
-            raise Violation("history_detection", "use %d after %d offset "
-                            "changes: sample %d within 0.3 d_min of point %d "
-                            "detected as %r" %
-                            (n_use, n_set, bad, int(idx[bad]),
-                             got[bad] if bad >= 0 else got.shape),
+        if n == 1 and int(arg) % 2:
+            z = z.reshape(())
+        elif n >= 4 and n % 2 == 0 and int(arg) % 3 == 0:
+            z = z.reshape(2, n // 2)
+        got = np.asarray(mod.demodulate(z))
+        if got.shape != np.shape(z):
+            raise Violation("demodulate_shape", "use %d: output shape %r for "
+                            "input shape %r" % (n_use, got.shape, np.shape(z)),
+                            _tags(cfg))
+        got = got.reshape(-1)
+        if not np.array_equal(got, idx):
+            bad = int(np.flatnonzero(got != idx)[0])
+            raise Violation("history_detection", "use %d (object %d) after "
+                            "%d offset changes: sample %d within 0.3 d_min "
+                            "of point %d detected as %r" %
+                            (n_use, t, n_set, bad, int(idx[bad]), got[bad]),
                             _tags(cfg, n_set=min(n_set, 3)))
     ctx.label("hist:uses=%d" % min(n_use, 4), "hist:sets=%d" % min(n_set, 4))
-    ctx.nontrivial(n_use >= 2 and n_set >= 1)
+    ctx.nontrivial(n_use >= 2 and (n_set >= 1 or len(cfgs) == 2 or
+                                   len(set(last_n.values())) >= 1))
+
+
+def _part_bignoisy(case, ctx):
+    cfg = case["cfg"]
+    mod = _build(cfg)
+    c = _symbols(mod)
+    M, n = c.size, int(case["n"])
+    rs = np.random.RandomState(int(case["seed"]))
+    idx = rs.randint(0, M, size=n)
+    nn = _nn_dist(c, idx)
+    kind = rs.randint(0, 4, size=n)
+    # 0: inside the decision region, 1: around the decision boundary,
+    # 2: anywhere in a box around the constellation, 3: far outside
+    amp = np.where(kind == 0, 0.45 * rs.uniform(0, 1, n),
+                   np.where(kind == 1, 0.5 + 0.2 * rs.uniform(-1, 1, n),
+                            0.0)) * nn
+    z = c[idx] + amp * np.exp(2j * math.pi * rs.uniform(0, 1, n))
+    r = float(np.abs(c).max())
+    box = (rs.uniform(-1.3, 1.3, n) + 1j * rs.uniform(-1.3, 1.3, n)) * r
+    far = c[idx] * (1.0 + 10.0 ** rs.uniform(-1.0, 3.0, n))
+    z = np.where(kind == 2, box, np.where(kind == 3, far, z))
+    arr = z.reshape(2, -1) if case.get("two_d") and n % 2 == 0 else z
+    tags = _tags(cfg, n=n)
+    got = np.asarray(mod.demodulate(arr))
+    if got.shape != arr.shape:
+        raise Violation("demodulate_shape", "demodulate output shape %r for "
+                        "input shape %r" % (got.shape, arr.shape), tags)
+    got = got.reshape(-1).astype(np.int64)
+    if got.min() < 0 or got.max() >= M:
+        raise Violation("demodulate_range", "index outside [0,%d)" % M, tags)
+    ref, d1, d2 = _nearest(c, z)
+    rel = (d2 - d1) / (d1 + d2)
+    tie = ~(rel > TIE_REL)
+    ctx.label("bignoisy:%s" % cfg["cls"])
+    ctx.count("detections", n)
+    ctx.count("detections_tie_excluded", int(tie.sum()))
+    ctx.count("detections_long_block_off_point", int((~tie).sum()))
+    ctx.nontrivial(True)
+    wrong = np.flatnonzero((got != ref) & ~tie)
+    for k in wrong.tolist()[:50]:
+        zk = complex(z[k])
+        e_got = _exact_d2(c[got[k]], zk)
+        e_ref = _exact_d2(c[ref[k]], zk)
+        if e_got > e_ref * (Fraction(1) + Fraction(4 * TIE_REL)):
+            raise Violation(
+                "nearest_symbol",
+                "block of %d samples, sample %r: demodulate -> %d (distance "
+                "%.17g) but point %d is nearer (distance %.17g)" %
+                (n, zk, int(got[k]), math.sqrt(float(e_got)), int(ref[k]),
+                 math.sqrt(float(e_ref))), tags)
+        ctx.count("detections_tie_excluded_exact", 1)
 
 
 def _expect_value_error(fn, name, detail, tags):
@@ -831,6 +962,8 @@ def check(case, ctx):
         return _part_detect(case, ctx)
     if part == "history":
         return _part_history(case, ctx)
+    if part == "bignoisy":
+        return _part_bignoisy(case, ctx)
     raise AssertionError("unknown part %r" % part)
 
 
